@@ -18,6 +18,8 @@ VARIABLE c
 \*               through the absolute path ::typeshare::typeshare, with blanks inside the brackets)
 \* bad_item_arrives_*  the second item cannot be generated (a u64 field); its file reaches the collector first / between / after the two
 \*               good files of the same crate: the run reports it (Trace_C03!Reported), it is not silently omitted
+\* bad_vfield_item / bad_payload_item / bad_alias_item   the part that cannot be generated (a u64) is a field of a struct variant, the payload
+\*               of a tuple variant, the target of an alias: the item is reported, neither dropped nor generated without that part
 \* second_run    the same command twice into the same location: the definitions the second run leaves are one per annotated item again
 \* no_src        a crate directory without a src directory (single-file mode only: folder mode names files after the directory above src)
 Init == c \in { r \in [place : Places, mode : Modes, lang : Langs] : r.place = "no_src" => r.mode = "single" }
